@@ -395,6 +395,9 @@ def gen_cases(rng, tier):
             for a, sgn, rev in ((1, 1, False), (-5, -1, True), (MAX128, 1, True), (0, -1, False))]
     # a Decimal factor at the top of the Decimal exponent range: the product leaves it (decimal.Overflow inside the
     # implementation) - for the caller an out-of-range product like any other; zero times it is zero
+    # a zero divisor raises whatever the dividend is, zero included
+    huge += [{"k": "floor_int", "a": a, "n": 0} for a in (0, 1, -1, T64)] + [{"k": "floor_td", "a": a, "b": 0} for a in (0, 5)] + \
+            [{"k": "bin", "op": "mod", "a": a, "b": 0} for a in (0, -7)] + [{"k": "divmod_td", "a": a, "b": 0} for a in (0, 3)]
     huge += [{"k": "mul_rat", "ty": "Decimal", "a": a, "x": x, "rev": rev}
              for a, x, rev in ((10 * T64, "9e999999", False), (-3 * T64, "9e999999", True), (MAX128, "-9e999999", False),
                                (0, "9e999999", False), (25 * T64, "-9.5e999999", True))]
